@@ -314,7 +314,7 @@ func subsets(ops []string, maxK int) [][]string {
 	return out
 }
 
-func plans(tier string) []mc.Plan {
+func basePlans(tier string) []mc.Plan {
 	var ps []mc.Plan
 	maxK := 2
 	if tier == "thorough" {
@@ -357,6 +357,16 @@ func plans(tier string) []mc.Plan {
 		}
 	}
 	return ps
+}
+
+// plans adds, to every scenario, a twin explored relative to the reversed default schedule (a
+// second reference schedule for the deviation bound).
+func plans(tier string) []mc.Plan {
+	ps := basePlans(tier)
+	if tier == "thorough" {
+		return mc.WithReversed(ps, 1)
+	}
+	return mc.WithReversed(ps, 1)
 }
 
 func init() {
